@@ -173,6 +173,56 @@ Fixpoint chain_tree (d : path) (bottom : forest) : forest :=
 
 Definition def_depth_bound : nat := 64.
 
+(* ------------------------------------------------------------------ transition resolution *)
+(* longest prefix of dst that is active below sc; if all of dst is active its last element is
+   moved back to the remaining part (re-entry) *)
+Fixpoint split_go (cur : forest) (root : path) (d : path) : path * path :=
+  match d with
+  | [] => (root, [])
+  | n :: r => match f_get cur n with
+              | Some ch => split_go ch (root ++ [n]) r
+              | None => (root, d)
+              end
+  end.
+
+Definition split_active (f : forest) (sc : path) (dst : path) : path * path :=
+  match sub f sc with
+  | None => ([], dst)
+  | Some cur =>
+      let '(root, rest) := split_go cur [] dst in
+      match rest with
+      | [] => (removelast root, [last root 0])
+      | _ => (root, rest)
+      end
+  end.
+
+Record resolution : Type := mkRes {
+  r_exits : list path;      (* absolute paths whose exit callbacks run, in order *)
+  r_new : forest;           (* the new configuration *)
+  r_enters : list path      (* absolute paths whose enter callbacks run, in order *)
+}.
+
+(* NestedTransition._resolve_transition for a transition declared in scope sc with
+   destination dst (relative to sc) whose definition is dd *)
+Definition resolve (f : forest) (sc dst : path) (dd : sdefn) : option resolution :=
+  let '(root, rest) := split_active f sc dst in
+  let base := sc ++ root in
+  match sub f base with
+  | None => None
+  | Some scoped =>
+      let d0 := hd 0 rest in
+      let narrowed := Nat.ltb 1 (length scoped) in
+      let exit_scope : forest :=
+        if narrowed then match f_get scoped d0 with Some ch => [Node d0 ch] | None => [Node d0 []] end
+        else scoped in
+      let bottom := initial_tree def_depth_bound dd in
+      let newscoped := if narrowed then f_set scoped d0 (chain_tree (tl rest) bottom)
+                       else chain_tree rest bottom in
+      Some (mkRes (map (fun p => base ++ p) (resolve_order exit_scope))
+                  (update_at f base (fun _ => newscoped))
+                  (prefixes_from base rest ++ map (fun p => base ++ rest ++ p) (bfs bottom)))
+  end.
+
 (* ------------------------------------------------------------------ the engine *)
 Section HEngine.
   Variable hm : hmachine.
@@ -245,52 +295,18 @@ Section HEngine.
     end.
 
   (* NestedTransition._resolve_transition + _change_state, in scope sc, dest relative dst *)
-  Definition split_active (f : forest) (sc : path) (dst : path) : path * path :=
-    (* longest prefix of dst that is active below sc; if all of dst is active the last
-       element is moved back to the remaining part *)
-    let fix go (cur : forest) (root : path) (d : path) {struct d} : path * path :=
-        match d with
-        | [] => (root, [])
-        | n :: r => match f_get cur n with
-                    | Some ch => go ch (root ++ [n]) r
-                    | None => (root, d)
-                    end
-        end in
-    match sub f sc with
-    | None => ([], dst)
-    | Some cur =>
-        let '(root, rest) := go cur [] dst in
-        match rest with
-        | [] => (removelast root, [last root 0])
-        | _ => (root, rest)
-        end
-    end.
-
   Definition change_state (sc : path) (dst : path) : HM unit :=
     match find_def (scope_children hm sc) dst with
     | None => raise ValueError                       (* get_state(dest) *)
     | Some dd =>
         f <- get ;;
-        let '(root, rest) := split_active f sc dst in
-        let base := sc ++ root in
-        match sub f base with
+        match resolve f sc dst dd with
         | None => raise ValueError
-        | Some scoped =>
-            let d0 := hd 0 rest in
-            let narrowed := Nat.ltb 1 (length scoped) in
-            let exit_scope : forest :=
-              if narrowed then match f_get scoped d0 with Some ch => [Node d0 ch] | None => [Node d0 []] end
-              else scoped in
-            let exits := map (fun p => base ++ p) (resolve_order exit_scope) in
-            let bottom := initial_tree def_depth_bound dd in
-            let newbranch := chain_tree rest bottom in
-            let enters := prefixes_from base rest ++ map (fun p => base ++ rest ++ p) (bfs bottom) in
-            let newscoped := if narrowed then f_set scoped d0 (chain_tree (tl rest) bottom) else newbranch in
-            let f' := update_at f base (fun _ => newscoped) in
-            run_exits exits ;;;
-            put f' ;;;
-            run_enters enters ;;;
-            run_onfinal (final_check_root f' enters)
+        | Some r =>
+            run_exits (r_exits r) ;;;
+            put (r_new r) ;;;
+            run_enters (r_enters r) ;;;
+            run_onfinal (final_check_root (r_new r) (r_enters r))
         end
     end.
 
